@@ -830,7 +830,15 @@ func (l *loopInfo) classParser(c *Ctx, cfg *loopCfg) (string, bool) {
 			}
 		}
 		if prattTest && eofHasNoBindingPower(c) && l.everyCycleHits(func(b *ssa.BasicBlock) bool {
-			return blockCalls(b, func(ci ssa.CallInstruction) bool { return ci.Common().StaticCallee() == cfg.advance })
+			return blockCalls(b, func(ci ssa.CallInstruction) bool {
+				callee := ci.Common().StaticCallee()
+				if callee == cfg.advance {
+					return true
+				}
+				// the infix half of the loop body moved into a method: all of its paths advance
+				return callee != nil && fnPkg(callee) == fnPkg(l.fn) && len(callee.Blocks) > 0 && callee != l.fn &&
+					allPathsCall(callee, map[*ssa.Function]bool{cfg.advance: true}, 0)
+			})
 		}) {
 			return "Pratt loop: every cycle calls advance (one token consumed), and the loop test rbp < bp(token) fails at the end of input because the EOF token has no binding power in the bps table (rbp >= 0 at every call: 0, bp(t) or bp(t)-1 of a token with bp >= 2)", true
 		}
